@@ -171,8 +171,8 @@ Example nv_C15_exact :
   exact_case nv_c nv_e_q None (V "20030231") [V "D8"; V "RD8"] false (K ["8"]) /\
   exact_case nv_c nv_e_q None (V "20030201-20030228") [V "D8"; V "RD8"] true [] /\
   exact_case nv_c nv_e_q None (V "2575") [V "TM"] false (K ["9"]) /\
-  (* first component of an optional / a required composite, absent; present and wrong *)
-  exact_case nv_c nv_e_sub (Some (V "S", 1%Z)) None [] true [] /\
+  (* first component of an optional / a required composite, absent (the composite itself being present); present and wrong *)
+  exact_case nv_c nv_e_sub (Some (V "S", 1%Z)) None [] false (K ["1"]) /\
   exact_case nv_c nv_e_sub (Some (V "R", 1%Z)) None [] false (K ["1"]) /\
   exact_case nv_c nv_e_sub (Some (V "S", 1%Z)) (V "HCX") [] false (K ["5"; "7"]).
 Proof.
